@@ -1342,7 +1342,9 @@ class ItemSpaceParent(ItemFactoryImpl, BaseNamespaceReferrer, HasFormula):
         return key in self.param_spaces
 
     def get_value_from_key(self, key):
-        return self.param_spaces[key].interface
+        # Like cells, build the item if it is not there (any more)
+        return self.system.executor.eval_node(
+            key_to_node(self, key)).interface
 
 
 _base_space_impl_base = (
